@@ -1,6 +1,6 @@
 #!/bin/bash
-# Builds all three variants of the library, the apps and every checker binary once (offline, from files on disk).
+# Builds all four variants of the library, the apps and every checker binary once (offline, from files on disk).
 set -euo pipefail
 cd /verif
-tools/stage_build.sh rel san tsan
+tools/stage_build.sh rel san tsan sch
 echo "setup done"
